@@ -118,7 +118,7 @@ def gen_interp(rng, kind):
     for b in pts:
         top = sum(x * c for x, c in zip(b, cv))
         gap = F(rng.randint(0, 12), 4)
-        vals.append(top - gap if rng.random() < 0.9 else top + F(rng.randint(1, 4), 4))
+        vals.append(top - gap if rng.random() < 0.8 else top + F(rng.randint(1, 4), 4))
     r = rng.random()
     if pts and r < 0.3:
         query = list(rng.choice(pts))
@@ -134,7 +134,7 @@ def gen_interp(rng, kind):
 def gen(rng, tier):
     n = {"quick": 700, "thorough": 5000, "search": 1500}[tier]
     out = []
-    kinds = ["ed"] * 5 + ["edi"] * 4 + ["fbp", "fbp", "fbc", "ebp", "ebc", "dom", "dom"] + ["prune"] * 2 + ["saw"] * 3 + ["lpi"] * 3
+    kinds = ["ed"] * 5 + ["edi"] * 4 + ["fbp", "fbp", "fbc", "ebp", "ebc", "dom", "dom"] + ["prune"] * 2 + ["prune2"] + ["saw"] * 3 + ["lpi"] * 3
     for _ in range(n):
         kind = rng.choice(kinds)
         d = rng.choice([1, 2, 2, 3, 3, 4, 5])
@@ -165,6 +165,10 @@ def gen(rng, tier):
             out.append("ebc %s %d" % (vecs(l, d), rng.randint(0, len(l))))
         elif kind == "prune":
             out.append("prune " + vecs(rand_vecset(rng, d, min(sz, 16)), d))
+        elif kind == "prune2":                # one Pruner object reused on two sets of different sizes
+            big = rng.choice([8, 10, 12, 16]); small = rng.choice([3, 4, 5, 6])
+            a, b = (big, small) if rng.random() < 0.7 else (small, big)
+            out.append("prune2 %s %s" % (vecs(rand_vecset(rng, d, a), d), vecs(rand_vecset(rng, d, b), d)))
         else:
             out.append(gen_interp(rng, kind))
     return out
